@@ -277,6 +277,7 @@ def check_case(case):
         x["shape_kind"] = shape[0]
         x["transform_class"] = tcls
         x["has_arcs"] = round_
+        x["antidiagonal_reflection"] = M[0] == 0 and M[3] == 0 and M[0] * M[3] - M[1] * M[2] < 0
     return {"dis": dis, "nontrivial": bool(geo), "class": "%s:%s" % (shape[0], tcls), "checked": ["StartPoint", "EdgeEnds", "ArcOffEllipse", "ArcWrongQuarter", "Laws"]}
 
 
